@@ -278,11 +278,32 @@ pub fn prop_multi(c: &crate::props::c15::MultiCase, log: &mut CaseLog) -> Verdic
     use crate::props::c15::{multi_project, word_occurrences};
     use std::collections::BTreeSet;
     let proj = multi_project(c);
-    let name = if c.symbol % 2 == 0 { "libk1" } else { "libl0" };
+    let name = match (c.symbol % 4, c.import_kind % 4) {
+        (2, 3) => "mk1",
+        (3, 3) => "ml0",
+        (s, _) if s % 2 == 0 => "libk1",
+        _ => "libl0",
+    };
     let mut occ: Vec<(String, (u64, u64, u64))> = vec![];
-    for (f, t) in &proj.files {
-        for o in word_occurrences(t, name) {
-            occ.push((f.clone(), o));
+    if c.import_kind % 4 == 3 {
+        // `.import libk1 as mk1, libl0 as ml0`: one symbol under two names. The occurrences are those of the library name
+        // in the library, those of the alias in the main file, and the import argument `libk1 as mk1` as a whole (one
+        // usage, as the unit tests of mos pin it).
+        let (lib_name, alias) = if matches!(name, "libk1" | "mk1") { ("libk1", "mk1") } else { ("libl0", "ml0") };
+        for o in word_occurrences(&proj.files["lib.asm"], lib_name) {
+            occ.push(("lib.asm".to_string(), o));
+        }
+        let a = word_occurrences(&proj.files["main.asm"], lib_name)[0];
+        let b = word_occurrences(&proj.files["main.asm"], alias)[0];
+        occ.push(("main.asm".to_string(), (0, a.1, b.2)));
+        for o in word_occurrences(&proj.files["main.asm"], alias).into_iter().skip(1) {
+            occ.push(("main.asm".to_string(), o));
+        }
+    } else {
+        for (f, t) in &proj.files {
+            for o in word_occurrences(t, name) {
+                occ.push((f.clone(), o));
+            }
         }
     }
     // the definition is the first occurrence in lib.asm
@@ -340,6 +361,25 @@ pub fn prop_multi(c: &crate::props::c15::MultiCase, log: &mut CaseLog) -> Verdic
                     Some((file_of(l["uri"].as_str()?)?, (rg["start"]["line"].as_u64()?, rg["start"]["character"].as_u64()?, rg["end"]["character"].as_u64()?)))
                 })
                 .collect();
+            // highlights: the occurrences in this document
+            let r = client.request("textDocument/documentHighlight", json!({"textDocument": {"uri": uri_of(f)}, "position": pos}), t)?;
+            let hl: BTreeSet<(u64, u64, u64)> = r
+                .as_array()
+                .cloned()
+                .unwrap_or_default()
+                .iter()
+                .filter_map(|l| {
+                    let rg = &l["range"];
+                    if rg["start"]["line"] != rg["end"]["line"] {
+                        return Some((rg["start"]["line"].as_u64()?, 9999, rg["end"]["line"].as_u64()?));
+                    }
+                    Some((rg["start"]["line"].as_u64()?, rg["start"]["character"].as_u64()?, rg["end"]["character"].as_u64()?))
+                })
+                .collect();
+            let want_hl: BTreeSet<(u64, u64, u64)> = occ.iter().filter(|(g, _)| g == f).map(|(_, o)| *o).collect();
+            if hl != want_hl {
+                return Ok(Verdict::fail("highlights-differ|multi-file", describe(&format!("highlights requested at {}:{}:{}: got {:?}, expected {:?}", f, o.0, o.1 + 1, hl, want_hl))));
+            }
             if got != want_all {
                 let missing: Vec<_> = want_all.difference(&got).collect();
                 let extra: Vec<_> = got.difference(&want_all).collect();
